@@ -1,11 +1,10 @@
-(* EvalIdxMixed.v — MIXED brackets: a slice with a backticked label at one end and a plain integer text at the other, e.g.
-   X[`a`:3] or X[1:`b`].  Since fix 24bdfbd only brackets containing a backtick reach the callback; a mixed bracket does, and
-   its plain items still go through `int(item.strip())` there:
-     * a plain START is written back as that integer (canonical spelling);
-     * a plain STOP is written back INCREMENTED by one — the callback treats every stop as the inclusive end of a label slice;
-       X[`a`:3] therefore selects position(a) .. 3 inclusive;
-     * a plain item that int() rejects (2-1, a name, a nested subscript) raises ValueError.
-   Purely positional brackets are not concerned (they are copied verbatim: EvalIdxWhole.rewrite_pieces). *)
+(* EvalIdxMixed.v — MIXED brackets: a slice with a backticked label at one end and a plain text at the other, e.g.
+   X[`a`:3] or X[1:`b`].  A mixed bracket contains a backtick, so it reaches the callback; since fix 967c56d the callback
+   resolves only the items that hold a backticked label and leaves a plain item exactly as written (after str.strip()):
+     * a LABEL start is written as its position, a LABEL stop as its position + 1 (inclusive label end);
+     * a PLAIN item — an integer, an arithmetic expression, a name, nothing — is copied: it keeps its ordinary Python meaning
+       (X[`2001`:3] is X[1:3:], X[`2001`:-1] is X[1:-1:], X[`2001`:n-1] is X[1:n-1:]).
+   (Before the fix every item went through int() and every built-in-int stop was incremented: kept finding of round 3.) *)
 From Coq Require Import ZArith List Bool String Ascii Lia ZifyBool.
 Import ListNotations.
 Require Import PyBase EvalIdx EvalIdxFacts.
@@ -20,7 +19,6 @@ Section Mixed.
   Variable has : label -> bool.
   Variable locate : label -> outcome loc.
   Notation resolve_group := (resolve_group has locate).
-  Notation render_part := (render_part has locate).
 
   Definition m_ok (x : mpart) : Prop :=
     match x with
@@ -28,14 +26,11 @@ Section Mixed.
     | MPlain p => has_char ch_tick p = false /\ has_char ch_colon p = false
     end.
 
-  (* the text written for an item *)
-  Definition m_val (x : mpart) (is_stop : bool) : outcome string :=
+  (* the text written for an item: a label's start / inclusive stop; a plain item itself *)
+  Definition m_val (x : mpart) (is_stop : bool) : string :=
     match x with
-    | MLab a l => Ret (Z_to_string (snd (if is_stop then bump (stop_of l) else start_of l)))
-    | MPlain p => match opt_int p with
-                  | Some o => Ret (ropt (if is_stop then option_map (fun z => z + 1) o else o))
-                  | None => Raise ValueError
-                  end
+    | MLab a l => Z_to_string (snd (if is_stop then bump (stop_of l) else start_of l))
+    | MPlain p => strip is_py_space p
     end.
 
   Lemma m_text_no_colon x : m_ok x -> has_char ch_colon (m_text x) = false.
@@ -44,54 +39,42 @@ Section Mixed.
     intros (_ & C & _). exact (proj1 (proj2 (bt_facts a C))).
   Qed.
 
-  Lemma render_part_m x is_stop : m_ok x -> render_part (strip is_py_space (m_text x)) is_stop = m_val x is_stop.
+  Lemma render_item_m x is_stop : m_ok x -> render_item has locate (strip is_py_space (m_text x)) is_stop = Ret (m_val x is_stop).
   Proof.
     destruct x as [a l|p]; cbn [m_ok m_text m_val].
-    - intros (T & C & R). destruct (bt_facts a C) as (_ & _ & _ & B4). rewrite B4.
+    - intros (T & C & R). destruct (bt_facts a C) as (B1 & _ & _ & B4). rewrite B4.
+      rewrite (render_item_tick has locate (bt a) is_stop B1).
       exact (render_part_bt has locate a l is_stop T C R).
-    - intros [T _]. exact (render_part_positional has locate p is_stop T).
+    - intros [T _]. exact (render_item_stripped_plain has locate p is_stop T).
   Qed.
 
   Theorem mixed_slice_rewrite x y :
     m_ok x -> m_ok y ->
-    resolve_group (m_text x ++ String ch_colon (m_text y)) =
-      match m_val x false with
-      | Raise e => Raise e
-      | Ret a => match m_val y true with
-                 | Raise e => Raise e
-                 | Ret b => Ret ("[" ++ a ++ ":" ++ b ++ ":" ++ "" ++ "]")
-                 end
-      end.
+    resolve_group (m_text x ++ String ch_colon (m_text y)) = Ret ("[" ++ m_val x false ++ ":" ++ m_val y true ++ ":" ++ "" ++ "]").
   Proof.
     intros Hx Hy. rewrite (resolve_group_slice2 has locate _ _ (m_text_no_colon x Hx) (m_text_no_colon y Hy)).
-    rewrite (render_part_m x false Hx), (render_part_m y true Hy). reflexivity.
+    rewrite (render_item_m x false Hx), (render_item_m y true Hy). reflexivity.
   Qed.
 
   Theorem mixed_slice_step_rewrite x y ps :
     m_ok x -> m_ok y -> has_char ch_colon ps = false ->
     resolve_group (m_text x ++ String ch_colon (m_text y ++ String ch_colon ps)) =
-      match m_val x false with
-      | Raise e => Raise e
-      | Ret a => match m_val y true with
-                 | Raise e => Raise e
-                 | Ret b => Ret ("[" ++ a ++ ":" ++ b ++ ":" ++ strip is_py_space ps ++ "]")
-                 end
-      end.
+      Ret ("[" ++ m_val x false ++ ":" ++ m_val y true ++ ":" ++ strip is_py_space ps ++ "]").
   Proof.
     intros Hx Hy Hs. rewrite (resolve_group_slice3 has locate _ _ _ (m_text_no_colon x Hx) (m_text_no_colon y Hy) Hs).
-    rewrite (render_part_m x false Hx), (render_part_m y true Hy). reflexivity.
+    rewrite (render_item_m x false Hx), (render_item_m y true Hy). reflexivity.
   Qed.
 
-  (* spelled out: label start, integer stop — the stop is incremented *)
+  (* spelled out: label start, integer stop — the integer keeps its Python meaning (exclusive stop) *)
   Corollary label_start_int_stop a pa (z : Z) (n : nat) :
     has_char ch_tick a = false -> has_char ch_colon a = false -> label_resolves has locate a (LocI PyInt pa) ->
     exists inner,
       resolve_group (bt a ++ String ch_colon (Z_to_string z)) = Ret ("[" ++ inner ++ "]") /\
-      index_sem n inner = Some (py_slice_positions n (Some pa) (Some (z + 1)) 1).
+      index_sem n inner = Some (py_slice_positions n (Some pa) (Some z) 1).
   Proof.
-    intros T C R. exists (ropt (Some pa) ++ String ch_colon (ropt (Some (z + 1)) ++ String ch_colon (ropt None))). split.
+    intros T C R. exists (ropt (Some pa) ++ String ch_colon (ropt (Some z) ++ String ch_colon (ropt None))). split.
     - pose proof (mixed_slice_rewrite (MLab a (LocI PyInt pa)) (MPlain (Z_to_string z))) as H.
-      cbn [m_text m_val m_ok start_of snd] in H. change (opt_int (Z_to_string z)) with (opt_int (ropt (Some z))) in H. rewrite (opt_int_ropt (Some z)) in H. cbn [option_map ropt] in H.
+      cbn [m_text m_val m_ok start_of snd] in H. rewrite strip_Z_to_string in H.
       rewrite inner_assoc. apply H; [repeat split; assumption|].
       destruct (numeric_no_special _ (Z_to_string_numeric z)) as (Cz & Tz & _ & _). split; assumption.
     - rewrite index_sem_slice3 by apply ropt_no_colon. rewrite slice_sem_ropt. reflexivity.
@@ -106,20 +89,21 @@ Section Mixed.
   Proof.
     intros T C R. exists (ropt (Some z) ++ String ch_colon (ropt (Some (pb + 1)) ++ String ch_colon (ropt None))). split.
     - pose proof (mixed_slice_rewrite (MPlain (Z_to_string z)) (MLab b (LocI PyInt pb))) as H.
-      cbn [m_text m_val m_ok stop_of bump snd] in H. change (opt_int (Z_to_string z)) with (opt_int (ropt (Some z))) in H. rewrite (opt_int_ropt (Some z)) in H. cbn [ropt] in H.
+      cbn [m_text m_val m_ok stop_of bump snd] in H. rewrite strip_Z_to_string in H.
       rewrite inner_assoc. apply H; [|repeat split; assumption].
       destruct (numeric_no_special _ (Z_to_string_numeric z)) as (Cz & Tz & _ & _). split; assumption.
     - rewrite index_sem_slice3 by apply ropt_no_colon. rewrite slice_sem_ropt. reflexivity.
   Qed.
 
-  (* a plain item that int() rejects *)
-  Corollary mixed_slice_non_literal a l p :
+  (* a plain item that is no integer literal (2-1, a name, ...) is copied as well — no ValueError any more *)
+  Corollary mixed_slice_plain_item_verbatim a l p :
     has_char ch_tick a = false -> has_char ch_colon a = false -> label_resolves has locate a l ->
-    has_char ch_tick p = false -> has_char ch_colon p = false -> opt_int p = None ->
-    resolve_group (bt a ++ String ch_colon p) = Raise ValueError.
+    has_char ch_tick p = false -> has_char ch_colon p = false ->
+    resolve_group (bt a ++ String ch_colon p) =
+      Ret ("[" ++ Z_to_string (snd (start_of l)) ++ ":" ++ strip is_py_space p ++ ":" ++ "" ++ "]").
   Proof.
-    intros T C R Tp Cp N. pose proof (mixed_slice_rewrite (MLab a l) (MPlain p)) as H.
-    cbn [m_text m_val m_ok] in H. rewrite N in H. apply H; repeat split; assumption.
+    intros T C R Tp Cp. pose proof (mixed_slice_rewrite (MLab a l) (MPlain p)) as H.
+    cbn [m_text m_val m_ok] in H. apply H; repeat split; assumption.
   Qed.
 End Mixed.
 
@@ -135,14 +119,11 @@ Proof.
   exact (label_slice_rewrite_loc has locate (LP a la) (LP b lb) (conj Ta (conj Ca Ra)) (conj Tb (conj Cb Rb))).
 Qed.
 
-(* kept finding (mixed-slice-integer-end): the INTEGER end of a mixed slice does not keep its ordinary Python meaning —
-   X[`2001`:3] is rewritten to X[1:4:] (positions 1, 2, 3: position 3 included), X[`2001`:-1] to X[1:0:] (nothing), whereas with
-   the integer read as Python reads it they are positions 1, 2 resp. 1, 2, 3; and X[`2001`:2-1] raises ValueError *)
-Theorem mixed_slice_integer_stop_refuted :
-  exists (sp : span_model),
-    eval_text_span sp "X[`2001`:3]" = Ret "X[1:4:]" /\ index_sem 5 "1:4:" = Some [1; 2; 3]%nat /\ index_sem 5 "1:3" = Some [1; 2]%nat /\
-    eval_text_span sp "X[`2001`:-1]" = Ret "X[1:0:]" /\ index_sem 5 "1:0:" = Some [] /\ index_sem 5 "1:-1" = Some [1; 2; 3]%nat /\
-    eval_text_span sp "X[`2001`:2-1]" = Raise ValueError.
-Proof.
-  exists (SpanSeq [LInt 2000; LInt 2001; LInt 2002; LInt 2003; LInt 2004]). repeat split; vm_compute; reflexivity.
-Qed.
+(* fix 967c56d at work (the round-3 finding mixed-slice-integer-end, repaired): the integer end keeps its Python meaning *)
+Example mixed_slice_integer_end_keeps_its_meaning :
+  let sp := SpanSeq [LInt 2000; LInt 2001; LInt 2002; LInt 2003; LInt 2004] in
+  eval_text_span sp "X[`2001`:3]" = Ret "X[1:3:]" /\ index_sem 5 "1:3:" = index_sem 5 "1:3" /\
+  eval_text_span sp "X[`2001`:-1]" = Ret "X[1:-1:]" /\ index_sem 5 "1:-1:" = Some [1; 2; 3]%nat /\
+  eval_text_span sp "X[`2001`:2-1]" = Ret "X[1:2-1:]" /\
+  eval_text_span sp "X[ 1 : `2003` ]" = Ret "X[1:4:]".
+Proof. repeat split; vm_compute; reflexivity. Qed.
